@@ -10,4 +10,8 @@ INVARIANT TransformsPreserveSignedData
 INVARIANT AlterationsChangeSignedData
 INVARIANT KeyTagRange
 INVARIANT KeyTagLaws
+INVARIANT VectorLaws
+INVARIANT Emit
+INVARIANT EmitKeys
+INVARIANT EmitVectors
 CHECK_DEADLOCK FALSE
